@@ -135,6 +135,15 @@ IndInv == /\ TypeOK /\ Shape /\ StopsAtGrade /\ HistMonoStep
 IndInit == /\ \E a \in BOOLEAN : \E b \in Int : \E c \in Int : \E d \in BOOLEAN : \E e \in Int :
                 ret = [xzero |-> a, lvl |-> b, reported |-> c, converged |-> d, iters |-> e]
            /\ IndInv
+(* negative model (the defect of the pinned tree repaired in 3c8a2f0): on a lucky breakdown the restart iterate is         *)
+(* returned - the level does not move - while the history records 0.  With this action in the next-state relation the    *)
+(* induction must FAIL (BreakdownEnds, HistMonoStep).                                                                     *)
+SolveSmallStale ==
+  /\ pc = "solve" /\ bd # 0
+  /\ lvl' = lvl /\ hlast' = 0 /\ hlen' = hlen + 1
+  /\ pc' = "test"
+  /\ UNCHANGED <<params, geff, m, j, bd, kdim, ret>>
+NextStale == Next \/ SolveSmallStale
 (* vacuity probes: each must be violated *)
 NotBigBreakdown == ~(Done /\ bd >= 500 /\ N >= 1000 /\ ret.converged)
 NotCappedUnconverged == ~(Done /\ ~ret.converged /\ m >= 500)
